@@ -96,7 +96,12 @@ Definition new_kek (urandom : Z -> bytes) (e : envelope) : res (bytes * key_iden
        Ok (kek, key_info)
      else
        let key_info := urandom k_nonce_len in
-       Ok (kdf c hash_algo (gke_l2_key e) c_KDS_SERVICE_LABEL key_info k_kek_len_nonce_new, key_info)) in
+       (* self.l2_key or compute_l2_key(hash_algo, self.l1, self.l2, self) *)
+       let* seed := (match gke_l2_key e with
+                     | [] => compute_l2_key c hash_algo (gke_l1 e) (gke_l2 e) e
+                     | _ => Ok (gke_l2_key e)
+                     end) in
+       Ok (kdf c hash_algo seed c_KDS_SERVICE_LABEL key_info k_kek_len_nonce_new, key_info)) in
   Ok (kek, {| kid_version := 1; kid_flags := gke_flags e; kid_l0 := gke_l0 e; kid_l1 := gke_l1 e; kid_l2 := gke_l2 e;
               kid_rkid := gke_rkid e; kid_key_info := key_info; kid_domain := gke_domain e; kid_forest := gke_forest e |}).
 
